@@ -27,7 +27,8 @@ def _mm(T):
     from typelib import marshals
 
     with NoTracing():
-        return marshals.marshaller(T)
+        marshals.marshaller(T)
+    return lambda v: marshals.marshal(v, t=T)  # the public entry point
 
 
 def _d(*xs):
